@@ -132,8 +132,9 @@ class StorageSetup(Contract):
         two = S.and_(S.eq(nv, 2 * n + nb), S.gt(n, 0))
         yield ('C08.storage.empty', S.iff(empty, S.eq(n, 0)))
         yield ('C07.storage.lengths', S.or_(empty, S.and_(one, single_ok), S.and_(two, S.or_(S.not_(single_ok), True))))
-        yield ('C02.storage.cost/one_var', S.implies(one, lambda: S.forall(n, lambda i: S.eq(c.f(i), -p(i) * d(i) - Hh(i)))))
-        yield ('C02.storage.cost/two_var', S.implies(two, lambda: S.forall(n, lambda i: S.and_(
+        pfx = 'C17.costs_only.storage.equals_full_cost' if case['costs_only'] else 'C02.storage.cost'
+        yield (pfx + '/one_var', S.implies(one, lambda: S.forall(n, lambda i: S.eq(c.f(i), -p(i) * d(i) - Hh(i)))))
+        yield (pfx + '/two_var', S.implies(two, lambda: S.forall(n, lambda i: S.and_(
             S.eq(c.f(i), (-v['cost_in'] - p(i)) * d(i) - eff * Hh(i)),
             S.eq(c.f(n + i), (v['cost_out'] - p(i)) * d(i) - Hh(i))))))
         if case['nosim']:
